@@ -53,6 +53,12 @@ def _template(ctx, kind, side, exch):
         return S.make_template(side=side, entry=pe, stop=[(2.0, sl)], take=[(1.0, t1), (1.0, t2)], qty=2.0,
                                on_open_exits=on_open, name='T3',
                                reduced_stop=lambda s: [(abs(s.position.qty), s2)])
+    if kind == 'T3m':  # entry at market, one stop and an ordered two-row take-profit ladder (three adjacent reduce-only orders)
+        sl = ctx.real('sl', 50, 200)
+        t1 = ctx.real('t1', 50, 200)
+        t2 = ctx.real('t2', 50, 200)
+        ctx.constrain(And(sl < 99.7, 100.3 < t1, t1 < t2) if long else And(sl > 100.3, 99.7 > t1, t1 > t2))
+        return S.make_template(side=side, entry=None, stop=[(2.0, sl)], take=[(1.0, t1), (1.0, t2)], qty=2.0, name='T3m', reenter=True)
     if kind == 'T4':  # exits declared in on_open_position, take-profit moved in update_position
         pe = ctx.real('pe', 50, 200)
         sl = ctx.real('sl', 50, 200)
